@@ -178,7 +178,13 @@ def lit(v):
         return None if a is None or b is None else "(%s, %s)" % (a, b)
     if k == "map":
         acc = "map.empty"
-        for kk, x in v[1]:
+        es = list(v[1])
+        # insertion order middle, smallest, largest ...: the tree gets left and right children (ascending insertion,
+        # which is what Rust's Pushable does, only ever builds right spines)
+        if len(es) >= 2:
+            mid = len(es) // 2
+            es = [es[mid]] + es[:mid] + es[mid + 1:]
+        for kk, x in reversed(es):
             ks, xs = gstr(kk), lit(x)
             if ks is None or xs is None:
                 return None
